@@ -219,6 +219,8 @@ def ob_rely(e: int, act: int, e2: int, act2: int) -> bool:
     else:
         H.assume(e2 == -1 and act2 == 0 or e2 >= e)
     H.assume(act == H.P("action"))
+    if H.P("same2", 0):
+        H.assume(e2 == -1 or act2 == act)         # the second interference repeats the first action
     ee = H.select_bisect(e, 0, n - 1)
     e2v = H.select_bisect(e2, -1, n - 1)
     a2 = H.select(act2, 0, 13)
@@ -291,6 +293,10 @@ def obligations(tier, seed):
                         "params": {"workload": wl, "action": ai, "J": J}, "timeout": 600 if tier == "quick" else 3000,
                         "bounds": "interference '%s' before any file-system primitive of the participant%s" % (
                             act, "" if J == 1 else ", plus any second action at any later primitive")})
+        if tier == "quick" and wl in ("cold", "code_change"):
+            obs.append({"name": "rely2/%s/clear_all" % wl, "fn": "ob_rely", "mode": "S",
+                        "params": {"workload": wl, "action": ACTIONS.index("clear_all"), "J": 2, "same2": 1}, "timeout": 600,
+                        "bounds": "the whole cache is cleared before any two file-system primitives of the participant"})
         obs.append({"name": "guarantee/%s" % wl, "fn": "ob_guarantee", "mode": "S", "params": {"workload": wl},
                     "timeout": 300, "bounds": "every mutation the participant issues"})
     return obs
